@@ -36,6 +36,26 @@ Definition Doc_start (ts : list tok) (t : tree) : Prop := D_par true true ts t. 
 Definition in_language (doc : bool) (s : list chr) (t : tree) : Prop :=
   exists ts, lex s = Some ts /\ D_par doc true ts t.
 
+(* ------------------------------------------------------------------ the lexical layer, declaratively *)
+(* NAME: /[a-zA-Z_]\w*/ with maximal munch, the seven one-character terminals, %ignore WS.
+   [Spell ts s]: the text s spells the token list ts. *)
+Fixpoint word_chars (cs : list chr) : option word :=
+  match cs with
+  | [] => Some []
+  | (CStart c | CCont c) :: r => match word_chars r with Some w => Some (c :: w) | None => None end
+  | _ => None
+  end.
+Definition starts_wordchar (s : list chr) : bool :=
+  match s with (CStart _ | CCont _) :: _ => true | _ => false end.
+
+Inductive Spell : list tok -> list chr -> Prop :=
+| Sp_end : Spell [] []
+| Sp_ws ts s : Spell ts s -> Spell ts (CWs :: s)                                   (* whitespace is ignored *)
+| Sp_sym ts s x t : sym_of x = Some t -> Spell ts s -> Spell (t :: ts) (x :: s)
+| Sp_word ts s c0 cs w :                                                           (* [a-zA-Z_] \w*, longest match *)
+    word_chars cs = Some w -> starts_wordchar s = false -> Spell ts s ->
+    Spell (W (c0 :: w) :: ts) (CStart c0 :: cs ++ s).
+
 (* ------------------------------------------------------------------ the documented meaning *)
 (* What a path element matches (manual, "Semantics of Traits DSL"). *)
 Inductive matcher :=
@@ -80,6 +100,15 @@ Definition node_of (ml : matcher * link) : node :=
 Definition doc_paths_l (t : tree) (l : link) : list (list node) := map (map node_of) (raw_paths t l).
 Definition doc_paths (t : tree) : list (list node) := doc_paths_l t LEnd.
 
+(* the expression API (manual, "Expression" section): a.then(b) observes a path of a followed by a path of b,
+   a | b observes either *)
+Fixpoint paths (e : expr) : list (list node) :=
+  match e with
+  | ESingle n => [[n]]
+  | ESeries a b => flat_map (fun p => map (app p) (paths b)) (paths a)
+  | EPar a b => paths a ++ paths b
+  end.
+
 (* ------------------------------------------------------------------ the law on one observation *)
 Definition path_eqb (p q : list node) : bool := list_eqb node_eqb p q.
 Definition path_subset (a b : list (list node)) : bool := forallb (fun p => existsb (path_eqb p) b) a.
@@ -114,7 +143,9 @@ Definition doc_parse (s : list chr) : option (list tok * tree) :=
    4  accepted, but the observed paths (with notify flags) are not the documented ones
    5  in the language, parsed, compile_str raises although all denoted paths are distinct
    6  in the documented language, rejected, no "*" inside brackets
-   11 an exception other than ValueError *)
+   11 an exception other than ValueError
+   13 (Corr.law_codes) the answer for a text changes between calls: asked again, after the compiled graphs were
+      used, after the lru caches were dropped *)
 Definition law_single (s : list chr) (o : outcome) : list Z :=
   match o with Crashed => [11] | _ =>
   match doc_parse s with
@@ -128,19 +159,32 @@ Definition law_single (s : list chr) (o : outcome) : list Z :=
       end
   end end.
 
-(* Two spellings of one expression (whitespace at token boundaries, redundant brackets, regrouped series /
-   parallel): equal patterns, element by element, by ObserverGraph.__eq__; [pyeq]/[hasheq] are what Python's own
-   == and hash() said about the two compile_str results.
+(* An expression built through the Python API (trait / metadata / anytrait / dict_items / list_items / set_items,
+   then, |, join, the chaining methods) and compiled with compile_expr: same codes 3, 4, 5, 11. *)
+Definition law_expr (e : expr) (o : outcome) : list Z :=
+  match o with
+  | Graphs gs => chk 4 (path_set_eqb (flat_map graph_paths gs) (paths e))
+  | CompileError => if has_dup (paths e) then [3] else [5]
+  | _ => [11]
+  end.
+
+(* Two texts.  [same = true]: two spellings of one expression (whitespace at token boundaries, redundant brackets,
+   regrouped series / parallel): equal patterns, element by element, by ObserverGraph.__eq__; [pyeq]/[hasheq] are
+   what Python's own == and hash() said about the two compile_str results.  In every case Python-equal results
+   must denote the same paths (otherwise removal by one text would take away the registration of another).
    7  one spelling accepted, the other not      8  graphs differ
-   9  Python == false                          10  hashes differ *)
+   9  Python == false                          10  hashes differ
+   12 Python == true although the observed paths differ *)
 Definition same_class (a b : outcome) : bool :=
   match a, b with
   | Rejected, Rejected | CompileError, CompileError | Graphs _, Graphs _ | Crashed, Crashed => true
   | _, _ => false
   end.
-Definition law_pair (o1 o2 : outcome) (pyeq hasheq : bool) : list Z :=
-  chk 7 (same_class o1 o2)
+Definition law_pair (same : bool) (o1 o2 : outcome) (pyeq hasheq : bool) : list Z :=
+  (if same then chk 7 (same_class o1 o2) else [])
   ++ match o1, o2 with
-     | Graphs g1, Graphs g2 => chk 8 (list_eqb graph_eqb g1 g2) ++ chk 9 pyeq ++ chk 10 hasheq
+     | Graphs g1, Graphs g2 =>
+         (if same then chk 8 (list_eqb graph_eqb g1 g2) ++ chk 9 pyeq ++ chk 10 hasheq else [])
+         ++ chk 12 (negb pyeq || path_set_eqb (flat_map graph_paths g1) (flat_map graph_paths g2))
      | _, _ => []
      end.
